@@ -148,10 +148,10 @@ def run(chk):
     chk.rule("R11.3", "create_station wiring")
     chk.rule("R11.4", "horizon mask interpolation and wrap")
     chk.rule("R11.5", "simulated measures are the topocentric spherical quantities")
-    r11_1(chk)
-    r11_2(chk)
-    r11_3(chk)
-    r11_4(chk)
-    r11_5(chk)
+    chk.guard(r11_1, chk)
+    chk.guard(r11_2, chk)
+    chk.guard(r11_3, chk)
+    chk.guard(r11_4, chk)
+    chk.guard(r11_5, chk)
     chk.assume("north (−sinφ cosλ, −sinφ sinλ, cosφ), west (sinλ, −cosλ, 0), up (cosφ cosλ, cosφ sinλ, sinφ) for geodetic latitude φ and longitude λ")
     chk.assume("rot1/2/3 are the proper rotations decided under C02 (R02.4)")
